@@ -24,7 +24,8 @@ MUTATE = ("add_vertices", "add_edge", "add_edges_list", "delete_vertex", "delete
 OWN_START_LIST = ("ctor_label", "ctor_out", "ctor_free", "load_kbmag", "load_builtin", "d_copy", "d_recurrent")
 SHARES_START_LIST = ("d_rename", "d_multiple", "d_shortest")
 DERIVE = ("d_rename", "d_recurrent", "d_copy", "d_shortest", "d_multiple")
-CONSTRUCT = ("ctor_label", "ctor_out", "ctor_free", "load_kbmag", "load_builtin", "write_file")
+CONSTRUCT = ("ctor_label", "ctor_out", "ctor_free", "load_kbmag", "load_builtin", "write_file",
+             "caller_edits_dict")
 QUERY = ("q_has_edge", "q_edge_label", "q_edge_labels", "q_neighbors", "q_edges_at",
          "q_vertices", "q_edges", "q_follow", "q_accepts", "q_prefix", "q_enum", "q_fixed",
          "q_str", "q_list_builtins")
@@ -128,7 +129,7 @@ class Engine:
             "engine": NAME,
             "steps": rng.choice([6, 10, 16, 25, 40, 60] if tier == "thorough" else [6, 10, 16, 25, 40]),
             "vkind": rng.choice(["int", "int", "str"]),
-            "nverts": rng.randint(2, 8),
+            "nverts": rng.randint(2, 10 if tier == "thorough" else 8),
             "alpha": rng.choice(["single", "single", "single", "double"]),
             "nlabels": rng.randint(1, 5),
             "max_handles": rng.randint(2, 6),
@@ -194,7 +195,7 @@ class Engine:
     def universe(self, cfg):
         if cfg["vkind"] == "int":
             return list(range(cfg["nverts"]))
-        return ["p", "q", "s", "u", "v", "w", "x", "y"][:cfg["nverts"]]
+        return ["p", "q", "s", "u", "v", "w", "x", "y", "z", "t"][:cfg["nverts"]]
 
     def alphabet(self, cfg):
         return (SINGLE if cfg["alpha"] == "single" else DOUBLE)[:cfg["nlabels"]]
@@ -330,6 +331,14 @@ class Engine:
             starts = [rng.choice(V)] if V else []
             return {"op": "ctor_label" if kind == "label" else "ctor_out",
                     "new": self._new_id(world), "d": did, "content": None, "starts": starts}
+        if world.dicts and rng.random() < 0.15:
+            # the caller goes on using (and editing) a dict it built an automaton from
+            did = rng.choice(sorted(world.dicts))
+            V = world.dicts[did][3]
+            A = self.alphabet(cfg)
+            if V:
+                return {"op": "caller_edits_dict", "d": did, "v": rng.choice(V), "w": rng.choice(V),
+                        "l": rng.choice(A), "how": rng.choice(["set", "set", "del", "append"])}
         V, E = self._rand_graph(rng, cfg)
         did = "d%d" % (len(world.dicts) + 1 + world.steps_done * 10)
         starts = [rng.choice(V)]
@@ -742,6 +751,43 @@ class Engine:
             vs.append(viol("C09", "ctor_out.raised", repr(e)))
             return "raised:" + type(e).__name__
         self._register(world, op["new"], a, V, E, starts, "ctor_out", group="dict:" + did)
+        return "ok"
+
+    def _do_caller_edits_dict(self, world, op, vs):
+        """the caller mutates, in place, a dict it passed to a constructor earlier; every automaton
+        built from it must be unaffected (the model of the handles does not change)"""
+        did = op["d"]
+        if did not in world.dicts:
+            return "skipped:no-dict"
+        d, kind, snap, V = world.dicts[did]
+        v, w, l = op["v"], op["w"], op["l"]
+        if v not in d:
+            return "skipped:no-key"
+        if kind == "label":
+            if op["how"] == "del":
+                if not d[v]:
+                    return "skipped:empty"
+                d[v].pop(sorted(d[v])[0])
+            else:
+                d[v][l] = w
+        else:
+            if w not in d:
+                return "skipped:no-key"
+            if op["how"] == "del":
+                if not d[v]:
+                    return "skipped:empty"
+                d[v].pop(sorted(d[v], key=vkey)[0])
+            elif op["how"] == "append" and w in d[v]:
+                if l in d[v][w] or any(l in ls for ls in d[v].values()):
+                    return "skipped:nondeterministic"
+                d[v][w].append(l)          # mutates a label *list* the constructor was given
+            else:
+                if any(l in ls for ls in d[v].values()):
+                    return "skipped:nondeterministic"
+                d[v].setdefault(w, []).append(l)
+        world.stats["probe.caller_edited_its_dict"] += 1
+        if any(h.group == "dict:" + did for h in world.live()):
+            world.nontrivial = True
         return "ok"
 
     def _do_ctor_free(self, world, op, vs):
